@@ -11,12 +11,16 @@ import Verif.Model.AcmeChallenge
        w=err | w=resp:<status>:<body|!>                       (http)
        w=err | w=txt:<r1>;<r2>…  (`txt:-` = empty set)         (dns)
        w=alert:<n> | w=other | w=conn:<proto>  leaf=0 | leaf=1 ldns=<list> lips=<list> exts=<id~crit~octets,…>   (tls)
+       w=dpop … (see `dpop?`) | w=oidc … (see `oidc?`)                                    (wire)
        w=da authz= json= errf= b64= empty= wf= cbor= fmt= en= fpne= azdb= + per-format facts (see `daIn?`)
+    op=handler <all fields of op=validate> chex=0|1 owner=0|1 azurl=own|foreign|foreignother|missing fazst= fazexp=   (api.GetChallenge + polls)
     op=types idt=ip|dns|pi|wu|wd|other raw=x..
     op=rev ip=x..
+    op=src fact=status-writers|api-status-writers|authz-updaters|api-authz-updaters|chall-updaters|dispatch|types|handler-order
 
   Output (validate): `<status> err=<errT> ret=ok|ise fp=0|1 azrec=<authz status stored>:<expired> az=<authz status after UpdateStatus> tgt=<target>`
   (optional input fields `azst=` `azexp=` `azforeign=` (the loaded authorization does not own this challenge; its own challenges are pending): the owning authorization's stored status / expired flag before the call);
+  (handler) `ok|unauthorized|notfound|ise st= err= fpown= fpurl= azown= azurl= tgt=`;
   (types) `offered=<types> val=<stored value> wild=0|1`; (rev) `arpa=<name>`, `crash`, `unmodelled`,
   `mismatch`, `nohash` (the oracle table lacks a digest the model needs), `parse-error`.
 -/
@@ -74,7 +78,7 @@ def targetS : Target → String
 
 def outcomeS (cmp : Bool) (az : AzRec) (foreign : Bool) (o : Outcome) : String :=
   let r := daAuthzRecord az o
-  s!"{statusS o.status} err={errS o.err} ret={if o.ret = .ok then "ok" else "ise"} fp={if o.authzFp then 1 else 0} azrec={statusS r.status}:{if r.expired then 1 else 0} az={statusS (authzUpdateStatus r (ownChallengeValid foreign o))} tgt={if cmp then targetS o.target else "?"}"
+  s!"{statusS o.status} err={errS o.err} ret={match o.ret with | .ok => "ok" | .ise => "ise" | .notFound => "notfound" | .unauthorized => "unauthorized"} fp={if o.authzFp then 1 else 0} azrec={statusS r.status}:{if r.expired then 1 else 0} az={statusS (authzUpdateStatus r (ownChallengeValid foreign o))} tgt={if cmp then targetS o.target else "?"}"
 
 /-- oracle table entry -/
 def hentry? (t : String) : Option (Str × Str × Str) :=
@@ -138,9 +142,38 @@ def daIn? (kv : List (String × String)) : Option DaIn := do
                    permanentIdentifiers := (← list? "," str? (← lookup kv "pids")) })
     | some "none" => pure .none
     | _ => none
-  pure { authzOk := (← b "authz"), jsonOk := (← b "json"), errField := (← b "errf"), b64Ok := (← b "b64"),
+  pure { authzOk := (← b "authz"), authzMissing := ((lookup kv "authzmissing").bind bool?).getD false,
+         authzOtherAccount := ((lookup kv "azother").bind bool?).getD false, jsonOk := (← b "json"), errField := (← b "errf"), b64Ok := (← b "b64"),
          emptyObj := (← b "empty"), cborWellformed := (← b "wf"), cborOk := (← b "cbor"),
          format, enabled := (← b "en"), facts, fpNonEmpty := (← b "fpne"), authzDbOk := (← b "azdb") }
+
+def jws? (t : String) : Option Jws :=
+  match t.splitOn ":" with
+  | [p, o, k, sg, tm, far] => do pure ⟨(← bool? p), (← bool? o), (← optStr? k), (← bool? sg), (← bool? tm), (← bool? far)⟩
+  | _ => none
+
+def dpop? (kv : List (String × String)) : Option DpopFacts := do
+  let b (k : String) : Option Bool := do bool? (← lookup kv k)
+  let x (k : String) : Option Str := do str? (← lookup kv k)
+  let o (k : String) : Option (Option Str) := do optStr? (← lookup kv k)
+  let l (k : String) : Option (List Str) := do list? "," str? (← lookup kv k)
+  pure { provOk := (← b "prov"), payloadOk := (← b "payload"), idOk := (← b "id"), targetOk := (← b "target"),
+         serverKid := (← o "skid"), accountKid := (← x "akid"), issuer := (← x "iss"), audience := (← x "aud"),
+         clientId := (← x "cid"), handle := (← x "handle"), name := (← x "name"),
+         tok := (← jws? (← lookup kv "atjws")), atIss := (← x "atiss"), atAud := (← l "ataud"), atChal := (← x "atchal"),
+         atCnfKid := (← x "atcnf"), atClientId := (← x "atcid"), atScope := (← x "atscope"), atNonce := (← x "atnonce"),
+         pf := (← jws? (← lookup kv "pf")), pfAud := (← l "pfaud"), pfHtu := (← x "pfhtu"), pfSub := (← x "pfsub"),
+         pfNonce := (← x "pfnonce"), pfChal := (← x "pfchal"), mapOk := (← b "mapok"), mapChal := (← o "mchal"),
+         mapHandle := (← o "mhandle"), mapName := (← o "mname"), ordersOk := (← b "orders"), tokenStoreOk := (← b "tstore") }
+
+def oidc? (kv : List (String × String)) : Option OidcFacts := do
+  let b (k : String) : Option Bool := do bool? (← lookup kv k)
+  let x (k : String) : Option Str := do str? (← lookup kv k)
+  let o (k : String) : Option (Option Str) := do optStr? (← lookup kv k)
+  pure { provOk := (← b "prov"), payloadOk := (← b "payload"), idOk := (← b "id"), verifierOk := (← b "verifier"),
+         verifyOk := (← b "verify"), claimsOk := (← b "claims"), keyauth := (← x "keyauth"), acmeAud := (← x "acmeaud"),
+         audience := (← x "aud"), transformOk := (← b "transform"), tName := (← o "tname"), tHandle := (← o "thandle"),
+         name := (← x "name"), handle := (← x "handle"), ordersOk := (← b "orders"), tokenStoreOk := (← b "tstore") }
 
 def world? (kv : List (String × String)) : Option World := do
   let w ← lookup kv "w"
@@ -159,14 +192,19 @@ def world? (kv : List (String × String)) : Option World := do
       let exts ← list? "," ext? (← lookup kv "exts")
       pure (.tls (.conn (some ⟨dns, ips, exts⟩) p))
   | ["da"] => do pure (.attest (← daIn? kv))
+  | ["dpop"] => do pure (.dpop (← dpop? kv))
+  | ["oidc"] => do pure (.oidc (← oidc? kv))
   | ["nothing"] => pure .nothing
   | _ => none
+
+def azUrl? : String → Option AzUrl
+  | "own" => some .own | "foreign" => some .foreign | "foreignother" => some .foreignOther | "missing" => some .missing | _ => none
 
 def idt? : String → Option IdType
   | "ip" => some .ip | "dns" => some .dns | "pi" => some .permanentIdentifier
   | "wu" => some .wireUser | "wd" => some .wireDevice | "other" => some .other | _ => none
 
-def evalValidate (kv : List (String × String)) : Option String := do
+def evalValidate (handler : Bool) (kv : List (String × String)) : Option String := do
   let typ ← typ? (← lookup kv "typ")
   let status ← status? (← lookup kv "st")
   let perr ← err? (← lookup kv "perr")
@@ -190,6 +228,21 @@ def evalValidate (kv : List (String × String)) : Option String := do
     | .deviceAttest01, none => [token]
     | _, _ => []
   if status = .pending ∧ need.any (fun p => !(tab.any (·.1 = p))) then pure "nohash"
+  else if handler then
+    -- op=handler: api.GetChallenge on the stored challenge, then api.GetAuthorization polls
+    let req : HReq := ⟨(← bool? (← lookup kv "chex")), (← bool? (← lookup kv "owner")), (← azUrl? (← lookup kv "azurl"))⟩
+    let faz : AzRec := ⟨((lookup kv "fazst").bind status?).getD .pending, ((lookup kv "fazexp").bind bool?).getD false⟩
+    match getChallenge (mkHash tab) cfg dbOk ch w req with
+    | .crash => pure "crash"
+    | .val r =>
+      let e := r.effect
+      let codeS := match r.code with
+        | .ok => "ok" | .unauthorized => "unauthorized" | .notFound => "notfound" | .ise => "ise"
+      -- the fingerprint goes into the authorization the URL names
+      let fpOwn := e.authzFp && req.azUrl == .own
+      let fpUrl := e.authzFp && (req.azUrl == .foreign || req.azUrl == .foreignOther)
+      let azUrlS := if req.azUrl == .foreign || req.azUrl == .foreignOther then statusS (pollForeign faz) else "-"
+      pure s!"{codeS} st={statusS e.status} err={errS e.err} fpown={if fpOwn then 1 else 0} fpurl={if fpUrl then 1 else 0} azown={statusS (pollOwn az e)} azurl={azUrlS} tgt={if cmp then targetS e.target else "?"}"
   else match validate (mkHash tab) cfg dbOk ch w with
     | .done o => pure (outcomeS cmp az foreign o)
     | .crash => pure "crash"
@@ -202,12 +255,31 @@ def eval (line : String) : Option String := do
     | [k, v] => some (k, v)
     | _ => none
   match (← lookup kv "op") with
-  | "validate" => evalValidate kv
+  | "validate" => evalValidate false kv
+  | "handler" => evalValidate true kv
   | "types" =>
     let t ← idt? (← lookup kv "idt")
     let raw ← str? (← lookup kv "raw")
     let (v, w, tys) := newAuthorization t raw
     pure s!"offered={if tys.isEmpty then "-" else ",".intercalate (tys.map typS)} val={xs v} wild={if w then 1 else 0}"
+  | "src" =>
+    let trip (l : List (String × String × String)) : String :=
+      if l.isEmpty then "-" else ",".intercalate (l.map fun (f, v, x) => s!"{f}:{v}={x}")
+    let names (l : List String) : String := if l.isEmpty then "-" else ",".intercalate l
+    match (← lookup kv "fact") with
+    | "status-writers" => pure (trip Src.statusWriters)
+    | "api-status-writers" => pure (trip Src.apiStatusWriters)
+    | "authz-updaters" => pure (names Src.authzUpdaters)
+    | "api-authz-updaters" => pure (names Src.apiAuthzUpdaters)
+    | "chall-updaters" => pure (names Src.challUpdaters)
+    | "dispatch" => pure (Src.dispatchGuard ++ ";" ++ ",".intercalate (Src.dispatch.map fun (c, f) => s!"{c}>{f}"))
+    | "types" =>
+      pure (",".intercalate (Src.types.map fun (t, base, g) =>
+        s!"{t}>{"+".intercalate base}" ++ match g with
+          | some (cond, extra) => s!";if:{cond}>{"+".intercalate extra}"
+          | none => ""))
+    | "handler-order" => pure Src.handlerOrder
+    | _ => pure "unknown-fact"
   | "rev" =>
     let ip ← str? (← lookup kv "ip")
     match reverseAddr ip with
